@@ -639,7 +639,32 @@ def rule_roc(repo, rep):
            'max_tnr maximises 1 - fpr over {tpr >= min_rate}; the arg-max '
            'inside the admissible set is mapped back through the index set; '
            'threshold_ = -thresholds[that index]')
-  f = repo.get_func(FN)
+  f0 = repo.get_func(FN)
+  # roles: indices = the admissible index set (np.where(<cmp>)[0] /
+  # flatnonzero); imax = the arg-max inside it
+  roles = {}
+  for n in ast.walk(f0.node):
+    if isinstance(n, ast.Assign) and isinstance(n.targets[0], ast.Name):
+      v = n.value
+      if isinstance(v, ast.Subscript) and isinstance(v.value, ast.Call) and \
+              canon(repo.dotted(f0.module, v.value.func) or '') == \
+              canon('numpy.where') and ast.unparse(v.slice) == '0':
+        roles[n.targets[0].id] = 'indices'
+      elif isinstance(v, ast.Call) and \
+              canon(repo.dotted(f0.module, v.func) or '') == \
+              canon('numpy.flatnonzero') and len(v.args) == 1 and \
+              isinstance(v.args[0], ast.Compare):
+        roles[n.targets[0].id] = 'indices'
+  ind_n = [k for k, v in roles.items() if v == 'indices']
+  for n in ast.walk(f0.node):
+    if isinstance(n, ast.Assign) and isinstance(n.targets[0], ast.Name) and \
+            isinstance(n.value, ast.Call) and \
+            canon(repo.dotted(f0.module, n.value.func) or '') == \
+            canon('numpy.argmax') and n.value.args and \
+            any(x in [y.id for y in ast.walk(n.value.args[0])
+                      if isinstance(y, ast.Name)] for x in ind_n):
+      roles[n.targets[0].id] = 'imax'
+  f = astutil.role_view(f0, roles)
   key = 'calibrate_threshold:roc'
   calls = [s for s in f.node.body if isinstance(s, ast.Assign) and
            isinstance(s.value, ast.Call) and
